@@ -433,3 +433,49 @@ def r17_9(ctx):
             and Norm(None).key(reads["T"][0].value) == Norm(None).key(ast.parse("opti.debug.value(self.T, opti_initial)", mode="eval").body)
     ctx.check(ok, "SplineMethod.set_initial evaluates a time-dependent guess at t0 + Greville*T of the guessed horizon", detail="guess evaluated at normalised / unshifted times", expected="f(t0 + self.G[d]*T) with t0, T the current starting values",
               found=found, fi=g, sample={"times": found})
+
+
+@rule("R17.10", min_instances=3, desc="SplineMethod refined sampling: the returned times are the physical image t0 + tau*T of the very sample locations tau at which the B-spline basis was evaluated (same knots, same sub-sampling)")
+def r17_10(ctx):
+    P = ctx.prog
+    f = P.own_method("SplineMethod", "sample_xu")
+    sc = ctx.scope(f)
+    refine = f.params[2]
+    evs = [c for c in walk_no_nested(f.node) if is_call_to(c, "eval_on_knots")]
+    def sub_kw(c):
+        kw = {k.arg: ast.unparse(k.value).replace(" ", "") for k in c.keywords}
+        return ast.unparse(c.args[0]) if c.args else None, kw.get("subsamples")
+    basis_evs = [c for c in evs if sc.enclosing_loops(c)]
+    ok = len(basis_evs) >= 1 and all(sub_kw(c) == ("self.xi", "%s-1" % refine) for c in basis_evs)
+    ctx.check(ok, "sample_xu evaluates the basis on the stage's knots with refine-1 sub-samples per interval", detail="basis sample locations", expected="eval_on_knots(self.xi, d, subsamples=refine-1)",
+              found="; ".join(ast.unparse(c) for c in basis_evs), fi=f)
+    ts = [st for st in walk_no_nested(f.node) if isinstance(st, ast.Assign) and ast.unparse(st.targets[0]) == "self.time[%s]" % refine]
+    ok = len(ts) == 1
+    found = "; ".join(ast.unparse(s) for s in ts)
+    if ok:
+        p = Norm(None).poly(ts[0].value)
+        locs = [a for a in p.atoms() if a not in ("self.t0", "self.T")]
+        ok = len(locs) == 1 and p == Poly.atom("self.t0") + Poly.atom(locs[0]) * Poly.atom("self.T")
+        if ok:
+            # the sample locations come from eval_on_knots on the same knots with the same sub-sampling
+            src = None
+            nm = locs[0]
+            for st in walk_no_nested(f.node):
+                if isinstance(st, ast.Assign) and is_call_to(st.value, "eval_on_knots") and isinstance(st.targets[0], (ast.List, ast.Tuple)) and st.targets[0].elts \
+                        and ast.unparse(st.targets[0].elts[0]) == nm and sc.order[st] < sc.order[ts[0]]:
+                    src = st.value
+            if src is None and nm.startswith("self.tau["):
+                src = basis_evs[0] if basis_evs else None
+            ok = src is not None and sub_kw(src) == ("self.xi", "%s-1" % refine)
+    ctx.check(ok, "sample_xu: refined times = t0 + (basis sample locations) * T", detail="refined time vector taken from another grid than the one the values are sampled on (non-uniform grids)",
+              expected="[tau, _] = eval_on_knots(self.xi, ., subsamples=refine-1); self.time[refine] = self.t0 + tau*self.T", found=found, fi=f, sample={"time": found})
+    g = P.function("splines/micro_spline", "eval_on_knots")
+    scg = ctx.scope(g)
+    # the locations returned with the basis: every knot followed by the linear sub-samples of its interval
+    apps = [c for c in walk_no_nested(g.node) if is_call_to(c, "append", "k")]
+    texts = [Norm(scg).key(c.args[0]) for c in apps]
+    xi = g.params[0]
+    want_inner = Norm(None).key(ast.parse("%s[i]*(1-tau)+tau*%s[i+1]" % (xi, xi), mode="eval").body)
+    ok = len(apps) == 2 and texts[0] == Norm(None).key(ast.parse("%s[i]" % xi, mode="eval").body) and texts[1] == want_inner
+    ctx.check(ok, "eval_on_knots returns, with the basis, the locations knot_i and knot_i*(1-tau)+tau*knot_{i+1}", detail="sample locations reported with the basis", expected="k.append(xi[i]); k.append(k_current*(1-tau)+tau*k_next)",
+              found=str(texts), fi=g)
